@@ -578,6 +578,9 @@ pub enum Error {
     #[snafu(display("Role missing from snapshot meta: {}", name))]
     RoleNotInMeta { name: String },
 
+    #[snafu(display("Delegated role '{}' is delegated to by itself or by one of its own delegates", name))]
+    DelegationCycle { name: String },
+
     #[snafu(display("The key for {} was not included", role))]
     KeyNotFound {
         role: String,
